@@ -240,6 +240,10 @@ func loadKnown() []knownFinding {
 }
 
 func main() {
+	if len(os.Args) >= 2 && os.Args[1] == "selftest" {
+		selftest(os.Args[2:])
+		return
+	}
 	if len(os.Args) < 3 {
 		fmt.Fprintln(os.Stderr, "usage: check <property> quick|thorough | check <property> --replay <file> | check selftest [world...]")
 		os.Exit(2)
